@@ -35,6 +35,44 @@ def gen_tle(rng, drag_free=True, **over):
     return tlegen.make(**f)
 
 
+def node_epoch_tle(rng, descending):
+    """an element set whose epoch lies within a few metres of a node (|z| < 1 km at epoch): the branch of
+    get_orbit_number that takes the epoch itself as the node time must tell ascending from descending"""
+    f = tlegen.random_fields(rng)
+    f.update(inc=rng.uniform(60, 120), ecc=rng.randint(1000, 30000), mm=rng.uniform(13.5, 14.8), rev=rng.randint(2, 99000),
+             ndot=0.0, nddot=(0, 0, " "), bstar=(0, 0, " "), day=float(rng.randint(2, 360)) + rng.choice([0.0, 0.5, 0.25]))
+    argp = rng.uniform(0, 359.9)
+    f["argp"] = round(argp, 4)
+
+    def z_at(ma):
+        g = dict(f)
+        g["ma"] = ma % 360.0
+        tle = tlegen.make(**g)
+        orb = make_orb(tle)
+        pos, vel = orb.get_position(orb.tle.epoch, normalize=False)
+        return float(pos[2]), float(vel[2]), tle
+    target = (180.0 if descending else 0.0) - f["argp"]
+    lo, hi = target - 2.0, target + 2.0
+    zlo, zhi = z_at(lo)[0], z_at(hi)[0]
+    if zlo * zhi > 0:
+        return None
+    for _ in range(40):
+        mid = (lo + hi) / 2
+        zm = z_at(mid)[0]
+        if zlo * zm <= 0:
+            hi, zhi = mid, zm
+        else:
+            lo, zlo = mid, zm
+    best = None
+    for cand in (round(lo, 4), round(hi, 4), round((lo + hi) / 2, 4)):
+        zc, vz, tle = z_at(cand)
+        if best is None or abs(zc) < abs(best[0]):
+            best = (zc, vz, tle)
+    if abs(best[0]) >= 0.9 or (best[1] < 0) != descending:
+        return None
+    return best[2]
+
+
 def pub(tle, **kw):
     d = {"tle": list(tle)}
     d.update(kw)
@@ -329,6 +367,11 @@ def run(ctx):
                               mm=rng.uniform(12.5, 14.5))
             elif float("0." + tle[1][26:33]) >= 0.02 and not 30.0 < float(tle[1][8:16]) < 150.0:
                 tle = gen_tle(rng, drag_free=True, inc=rng.uniform(31, 149))
+        if ti in (2, 3):
+            special = node_epoch_tle(rng, descending=(ti == 2))
+            if special is not None:
+                tle = special
+                ctx.extra.setdefault("epoch_on_node_sets", []).append({"line1": tle[0], "line2": tle[1], "descending": ti == 2})
         try:
             make_orb(tle)
         except Exception:
